@@ -1,6 +1,288 @@
-(* C15 -- placeholder while the model and the correspondence are being built (stage iii). *)
-From Coq Require Import List Bool ZArith.
-From Pandora Require Import Model.Multiscale.
-Theorem C15_placeholder : level_size 0 5 2 = 5%Z.
-Proof. reflexivity. Qed.
-Print Assumptions C15_placeholder.
+(* C15 -- a multiscale step really processes num_scales scales, coarse to fine.
+   Statements only; every proof is `exact <lemma>` from Proofs/MultiscaleP.v (and MachineP.v
+   for the sequencing, shared with C01).  [run_table] is regenerated from /repo (Gen/Tables.v),
+   the constants from fixed_zoom_pyramid.py / constants.py (Gen/MsConst.v).
+   Model/Multiscale.v is the model of the tree under test, in which `fix:` 5c83e0b (the
+   multiscale parameters are read from the pipeline section) and 4d38c54 (fill_nodata_image
+   works on copies) are in.  The radiometry of the Gaussian pyramid and the disparity maps
+   computed at each level are not modelled: the theorems hold for ALL disparity maps and
+   validity masks a level may hand to run_multiscale. *)
+From Coq Require Import List Bool ZArith QArith.
+From Pandora Require Import Lib.Blocks Model.Dataset Model.Machine Model.Multiscale.
+From Pandora Require Import Spec.Language Spec.CrossCheck Spec.Multiscale.
+From Pandora Require Import Proofs.MachineP Proofs.MultiscaleP Gen.Tables Gen.MsConst.
+Import ListNotations.
+Open Scope Z_scope.
+
+(* ---------------------------------------------------------------- per-run obligations *)
+
+(* the invalidating bits of the regenerated Gen/MsConst.v are the ones the proofs use, and the
+   chunk size found in disparity_range is a legal block size (its value is otherwise
+   irrelevant: C15_chunk_of_source); the class defaults are used as they are *)
+Theorem C15_constants_match : ms_invalid_bits = IB /\ 1 <= ms_chunk_size.
+Proof. split; [reflexivity | vm_compute; discriminate]. Qed.
+
+(* the regenerated run table is the documented automaton (shared with C01) *)
+Theorem C15_run_table_wf : run_tbl_wf run_table = true.
+Proof. vm_compute. reflexivity. Qed.
+
+(* the invalidating bits of the mask test are bits 0, 1, 6, 7, 8, 9 *)
+Theorem C15_invalid_test : forall V r c, invalid ms_invalid_bits V r c = negb (spec_valid (px V r c)).
+Proof. exact invalid_spec. Qed.
+
+(* ---------------------------------------------------------------- where the parameters are read *)
+
+(* the first multiscale step (possibly suffixed) of the pipeline section decides; its missing
+   parameters take the class defaults; no multiscale step: one scale *)
+Theorem C15_read_params_first : forall pre s post,
+  forallb (fun s => negb (sc_is_msc s)) pre = true -> sc_is_msc s = true ->
+  read_multiscale_params ms_default_num_scales ms_default_scale_factor (pre ++ s :: post)
+  = (dflt (sc_num_scales s) ms_default_num_scales, dflt (sc_scale_factor s) ms_default_scale_factor).
+Proof. exact (read_params_first ms_default_num_scales ms_default_scale_factor). Qed.
+
+Theorem C15_read_params_none : forall steps,
+  forallb (fun s => negb (sc_is_msc s)) steps = true ->
+  read_multiscale_params ms_default_num_scales ms_default_scale_factor steps = (1, 1).
+Proof. exact (read_params_none ms_default_num_scales ms_default_scale_factor). Qed.
+
+(* ---------------------------------------------------------------- which step runs at which scale *)
+
+(* pipeline = pre ++ ms :: post with ms its first multiscale step, any documented path, any
+   n >= 1: the run succeeds, restores the machine, and executes exactly
+     for j = n-1 .. 1 : the steps of pre, then ms          (scale j)
+     then             : the steps of pre, then those of post (scale 0),
+   each left then right when a validation step asks for the right map *)
+Theorem C15_multiscale_runs_n_scales : forall m pre ms post n d,
+  clean m -> path_ok Begin (pre ++ ms :: post) = Some d ->
+  has_kind Msc pre = false -> is_kind Msc ms = true -> (n >= 1)%nat ->
+  let p := pre ++ ms :: post in
+  let rdm := m_rdm m || has_kind Val p in
+  Machine.run run_table m p n = RunOk (mkM Begin [] rdm 0) (spec_trace pre ms post n rdm).
+Proof. intros m pre ms post n d. exact (run_is_spec_trace run_table m pre ms post n d C15_run_table_wf). Qed.
+
+Section Counting.
+  Variables (pre : list step) (ms : step) (post : list step) (n : nat) (rdm : bool).
+  Hypothesis Hnd : NoDup (map s_id (pre ++ ms :: post)).     (* step names are distinct (dict keys) *)
+  Hypothesis Hn : (n >= 1)%nat.
+  Hypothesis Hms : is_kind Msc ms = true.
+
+  (* number of executions of a step before the multiscale step = num_scales, at scales
+     n-1, ..., 0 in that order *)
+  Theorem C15_pre_steps_every_scale : forall s k, In s pre -> s_kind s = Some k ->
+    exec_scales (s_id s) false (spec_trace pre ms post n rdm) = all_scales n /\
+    exec_scales (s_id s) true (spec_trace pre ms post n rdm) = if rdm then all_scales n else [].
+  Proof. exact (pre_steps_every_scale pre ms post n rdm Hnd Hn). Qed.
+
+  (* steps after the multiscale step run once, at scale 0 *)
+  Theorem C15_post_steps_once_full_res : forall s k, In s post -> not_msc s = true -> s_kind s = Some k ->
+    exec_scales (s_id s) false (spec_trace pre ms post n rdm) = [0] /\
+    exec_scales (s_id s) true (spec_trace pre ms post n rdm) = if rdm then [0] else [].
+  Proof. exact (post_steps_once pre ms post n rdm Hnd). Qed.
+
+  (* the multiscale step computes intervals at every scale but the last *)
+  Theorem C15_msc_step_coarse_scales :
+    exec_scales (s_id ms) false (spec_trace pre ms post n rdm) = map Z.of_nat (coarse_scales n).
+  Proof. exact (msc_step_coarse_scales pre ms post n rdm Hnd Hms). Qed.
+End Counting.
+
+(* ---------------------------------------------------------------- image sizes *)
+
+(* level k of an axis of n samples has ceil(n / sf^k) samples, level 0 is the input, each
+   level is the previous one divided by sf and rounded up *)
+Theorem C15_level_sizes : forall k n sf, 0 < sf ->
+  is_level_size n sf k (level_size k n sf) /\ level_size 0 n sf = n /\
+  shrinks sf (level_size k n sf) (level_size (S k) n sf).
+Proof.
+  intros k n sf H. split; [exact (level_size_is k n sf H)|]. split; [reflexivity|].
+  exact (level_size_shrinks k n sf H).
+Qed.
+
+(* every execution of a step (other than the multiscale step itself) at scale j works on
+   images of ceil(H / sf^j) x ceil(W / sf^j) pixels, 0 <= j < n *)
+Theorem C15_image_size_per_execution : forall pre ms post n rdm H W sf e sz,
+  (n >= 1)%nat -> has_kind Msc pre = false -> s_kind ms = Some Msc ->
+  In (e, sz) (image_sizes n H W sf (spec_trace pre ms post n rdm)) -> ev_kind e <> Msc ->
+  0 <= ev_scale e < Z.of_nat n /\
+  sz = (level_size (Z.to_nat (ev_scale e)) H sf, level_size (Z.to_nat (ev_scale e)) W sf).
+Proof. exact image_size_per_execution. Qed.
+
+(* the returned maps have the size of the original images *)
+Theorem C15_outputs_full_size : forall pre ms post n rdm H W sf s,
+  (n >= 1)%nat -> has_kind Msc pre = false -> s_kind ms = Some Msc ->
+  In s pre -> s_kind s = Some Dsp ->
+  output_size n H W sf (spec_trace pre ms post n rdm) = (H, W).
+Proof. exact output_full_size. Qed.
+
+(* the zoomed grids of a level cover the images of the next one (the crop is a crop) *)
+Theorem C15_zoom_covers : forall k n sf, 0 < sf -> level_size k n sf <= sf * level_size (S k) n sf.
+Proof. exact zoom_covers. Qed.
+
+(* ---------------------------------------------------------------- intervals *)
+
+(* the first execution searches the user interval / sf^(n-1) everywhere, the mirrored
+   interval on the right image *)
+Theorem C15_coarsest_interval : forall marge sf dmin dmax H W n wr lvls, 1 <= sf -> (1 <= n)%nat ->
+  exists a b, hd_error (run_grids ms_invalid_bits marge sf dmin dmax H W n wr lvls)
+              = Some (GConst H W (a, b), if wr then Some (GConst H W (mirrored (a, b))) else None) /\
+    (a == fst (user_interval dmin dmax sf (n - 1)))%Q /\
+    (b == snd (user_interval dmin dmax sf (n - 1)))%Q.
+Proof. exact (coarsest_interval ms_invalid_bits). Qed.
+
+(* one execution per level *)
+Theorem C15_one_grid_per_level : forall marge sf dmin dmax H W n wr lvls,
+  length (run_grids ms_invalid_bits marge sf dmin dmax H W n wr lvls) = S (length lvls).
+Proof. exact (run_grids_length ms_invalid_bits). Qed.
+
+(* zoom order 0.  The index maps of the zoom calls are data of the model (observed on the run);
+   the interval theorems hold for EVERY pair of maps satisfying [zoom_contract]: fine index o
+   reads a coarse index of the map, at most one pixel away from its geometric parent o / sf.
+   The exact-arithmetic nearest-sample formula floor(o (n-1) / (sf n - 1) + 1/2) satisfies it
+   for every size (scipy follows the formula except on exact ties, where it may take the other
+   neighbour: still within the contract, checked on every run) *)
+Theorem C15_zoom_parent : forall sf n, 1 <= sf -> 1 <= n -> zoom_contract sf n (zoom_idx sf n).
+Proof. exact zoom_idx_contract. Qed.
+
+(* the chunked loops of disparity_range: any chunk size >= 1 gives the same ranges *)
+Theorem C15_block_independent : forall ws marge D V umin umax B B' r c,
+  ws = 2 * offset ws + 1 -> ws <= nr D -> ws <= nc D -> 1 <= B -> 1 <= B' ->
+  range_at_B ms_invalid_bits ws marge D V umin umax B r c = range_at_B ms_invalid_bits ws marge D V umin umax B' r c.
+Proof.
+  intros ws marge D V umin umax B B' r c H1 H3 H4.
+  exact (range_at_block_independent ws marge D V umin umax H1 H3 H4 B B' r c).
+Qed.
+
+(* in particular the chunk size written in the source gives the ranges of the model *)
+Theorem C15_chunk_of_source : forall ws marge D V umin umax r c,
+  ws = 2 * offset ws + 1 -> ws <= nr D -> ws <= nc D ->
+  range_at_B ms_invalid_bits ws marge D V umin umax ms_chunk_size r c = range_at ms_invalid_bits ws marge D V umin umax r c.
+Proof.
+  intros ws marge D V umin umax r c H1 H3 H4.
+  exact (range_at_block_independent ws marge D V umin umax H1 H3 H4 ms_chunk_size CHUNK r c
+           (proj2 C15_constants_match) (Zle_bool_imp_le 1 CHUNK eq_refl)).
+Qed.
+
+(* for EVERY user interval (no guard): the grids handed to the finer level are the property's
+   intervals, except that the fallback interval of invalid / border pixels is
+   sf * int(user interval of the coarser level) *)
+Theorem C15_finer_interval_as_computed : forall ws marge sf D V umin umax zrow zcol,
+  ws = 2 * offset ws + 1 -> 0 <= offset ws -> ws <= nr D -> ws <= nc D ->
+  zoom_contract sf (nr D) zrow -> zoom_contract sf (nc D) zcol ->
+  finer_spec ws marge sf (nr D) (nc D) (px D) (px V)
+             (inject_Z (qtrunc umin) * inject_Z sf)%Q (inject_Z (qtrunc umax) * inject_Z sf)%Q
+             (sf * nr D) (sf * nc D) (px (next_grids ms_invalid_bits ws marge sf D V umin umax zrow zcol)).
+Proof.
+  intros ws marge sf D V umin umax zrow zcol H1 H2 H3 H4.
+  exact (next_grids_as_computed ws marge sf D V umin umax H1 H2 H3 H4 zrow zcol).
+Qed.
+
+(* THE FULL PROPERTY for a finer level: execution i + 1 (scale s) of a run over n scales
+   searches, at every pixel, sf * [min - marge, max + marge] of the valid disparities of the
+   matching window around a coarse pixel within one pixel of the geometric parent, or the
+   whole user interval [dmin, dmax] / sf^s when that coarse pixel is invalid or on the border
+   (left and, when computed, right maps with the mirrored interval).  See finer_level_holds. *)
+Definition C15_fallback_full : Prop :=
+  forall marge sf dmin dmax H W n wr lvls i l s,
+    1 <= sf -> n = S (length lvls) -> nth_error lvls i = Some l -> (s + 1 = n - 1 - i)%nat ->
+    finer_level_holds marge sf dmin dmax H W n wr lvls i l s.
+
+(* ... is FALSE of the code (recorded finding fallback_interval_truncated): disp [-7, 4],
+   scale_factor 3, 2 scales, a coarse level whose pixels are all invalid or on the border *)
+Theorem C15_fallback_refuted : ~ C15_fallback_full.
+Proof. exact witness_refutes. Qed.
+
+(* ... and TRUE under the guard "sf^(s+1) divides both user bounds", i.e. the user interval
+   seen from the coarser level s + 1 is made of integers *)
+Theorem C15_finer_interval : forall marge sf dmin dmax H W n wr lvls i l s,
+  1 <= sf -> n = S (length lvls) -> nth_error lvls i = Some l -> (s + 1 = n - 1 - i)%nat ->
+  (sf ^ Z.of_nat (S s) | dmin) -> (sf ^ Z.of_nat (S s) | dmax) ->
+  finer_level_holds marge sf dmin dmax H W n wr lvls i l s.
+Proof. exact finer_interval_run'. Qed.
+
+(* inside the finding's class: a coarse pixel that is invalid or on the border hands
+   sf * int(user bound) to its fine pixels, which is not the level's user bound as soon as
+   the coarser level's bound is not an integer *)
+Theorem C15_fallback_finding_class : forall ws marge sf D V umin umax pr pc,
+  ws = 2 * offset ws + 1 -> 0 <= offset ws -> ws <= nr D -> ws <= nc D ->
+  0 <= pr < nr D -> 0 <= pc < nc D -> 1 <= sf ->
+  valid_px (nr D) (nc D) (px D) (px V) pr pc && negb (on_border ws (nr D) (nc D) pr pc) = false ->
+  scale_pair sf (range_at ms_invalid_bits ws marge D V umin umax pr pc)
+  = (Some (inject_Z (qtrunc umin) * inject_Z sf)%Q, Some (inject_Z (qtrunc umax) * inject_Z sf)%Q) /\
+  (~ integral umin -> ~ (inject_Z (qtrunc umin) * inject_Z sf == umin * inject_Z sf)%Q) /\
+  (~ integral umax -> ~ (inject_Z (qtrunc umax) * inject_Z sf == umax * inject_Z sf)%Q).
+Proof.
+  intros ws marge sf D V umin umax pr pc H1 H2 H3 H4 H5 H6 H7 H8.
+  split; [exact (fallback_truncated ws marge sf D V umin umax pr pc H1 H2 H3 H4 H5 H6 H8)|].
+  split; [exact (not_integral_differs umin sf H7) | exact (not_integral_differs umax sf H7)].
+Qed.
+
+(* the extracted checker the failing-input search applies to the grids observed on the real
+   code is sound for the Spec: no bad pixel reported -> finer_spec holds of those grids *)
+Theorem C15_spec_checker_sound : forall ws marge sf rows cols D V ulo uhi h w G,
+  finer_spec_bad ws marge sf rows cols D V ulo uhi h w G = [] ->
+  finer_spec ws marge sf rows cols D V ulo uhi h w G.
+Proof. exact finer_spec_bad_sound. Qed.
+
+(* ---------------------------------------------------------------- witnesses, non-vacuity *)
+
+(* the recorded finding on its witness: level 0 searches [-6, 3] instead of [-7, 4] *)
+Example C15_finding_witness :
+  exists g, nth_error (run_grids ms_invalid_bits 0 3 (-7) 4 9 9 2 false [wit_level]) 1 = Some (GMap g, None) /\
+            px g 0 0 = (Some (-6 # 1)%Q, Some (3 # 1)%Q) /\
+            Qred (fst (user_interval (-7) 4 3 0)) = (-7 # 1)%Q /\ Qred (snd (user_interval (-7) 4 3 0)) = (4 # 1)%Q.
+Proof. destruct witness_grid as (g & A & B). exists g. repeat split; assumption || reflexivity. Qed.
+
+(* a pipeline with steps before and after the multiscale step, three scales: hypotheses of the
+   sequencing theorems hold, the executions are the expected ones; a level with a valid
+   interior pixel for the interval theorems, the guard holds for [-8, 4], sf 2, n 3 *)
+Definition ex_pre : list step := [mkStep 0 (Some MC); mkStep 1 (Some Dsp); mkStep 2 (Some Flt)].
+Definition ex_ms : step := mkStep 3 (Some Msc).
+Definition ex_post : list step := [mkStep 4 (Some Ref); mkStep 5 (Some Val)].
+Definition ex_level : level :=
+  mkLevel 3 (mkArr 4 5 (fun r c => Some (inject_Z (r - c))), mkArr 4 5 (fun r c => if (r =? 0) && (c =? 0) then 1 else 0)) None
+          (zoom_idx 2 4, zoom_idx 2 5).
+Example C15_example_hyps :
+  clean machine0 /\ path_ok Begin (ex_pre ++ ex_ms :: ex_post) = Some DispMap /\
+  has_kind Msc ex_pre = false /\ is_kind Msc ex_ms = true /\ NoDup (map s_id (ex_pre ++ ex_ms :: ex_post)) /\
+  exec_scales 0 false (spec_trace ex_pre ex_ms ex_post 3 true) = [2; 1; 0] /\
+  exec_scales 4 false (spec_trace ex_pre ex_ms ex_post 3 true) = [0] /\
+  exec_scales 3 false (spec_trace ex_pre ex_ms ex_post 3 true) = [2; 1] /\
+  map snd (image_sizes 3 13 17 2 (scale_trace false 0 [])) = [] /\
+  map (fun k => level_size k 13 2) [0; 1; 2]%nat = [13; 7; 4] /\
+  level_ok 2 (lv_ws ex_level) (fst (lv_left ex_level)) (lv_zoom ex_level) /\
+  (2 ^ Z.of_nat 2 | -8) /\ (2 ^ Z.of_nat 2 | 4) /\
+  px (next_grids ms_invalid_bits 3 1 2 (fst (lv_left ex_level)) (snd (lv_left ex_level)) (-2 # 1) (1 # 1)
+                 (zoom_idx 2 4) (zoom_idx 2 5)) 4 4
+  = (Some (-6 # 1)%Q, Some (6 # 1)%Q).
+Proof.
+  split; [split; reflexivity|]. split; [reflexivity|]. split; [reflexivity|]. split; [reflexivity|].
+  split; [repeat constructor; cbn; intuition discriminate|].
+  split; [reflexivity|]. split; [reflexivity|]. split; [reflexivity|]. split; [reflexivity|]. split; [reflexivity|].
+  split.
+  { split; [reflexivity|]. split; [vm_compute; discriminate|]. split; [vm_compute; discriminate|].
+    split; [vm_compute; discriminate|]. split; apply zoom_idx_contract; vm_compute; discriminate. }
+  split; [exists (-2); reflexivity|]. split; [exists 1; reflexivity|]. reflexivity.
+Qed.
+
+Print Assumptions C15_constants_match.
+Print Assumptions C15_run_table_wf.
+Print Assumptions C15_invalid_test.
+Print Assumptions C15_read_params_first.
+Print Assumptions C15_read_params_none.
+Print Assumptions C15_multiscale_runs_n_scales.
+Print Assumptions C15_pre_steps_every_scale.
+Print Assumptions C15_post_steps_once_full_res.
+Print Assumptions C15_msc_step_coarse_scales.
+Print Assumptions C15_level_sizes.
+Print Assumptions C15_image_size_per_execution.
+Print Assumptions C15_outputs_full_size.
+Print Assumptions C15_zoom_covers.
+Print Assumptions C15_coarsest_interval.
+Print Assumptions C15_one_grid_per_level.
+Print Assumptions C15_zoom_parent.
+Print Assumptions C15_block_independent.
+Print Assumptions C15_chunk_of_source.
+Print Assumptions C15_finer_interval_as_computed.
+Print Assumptions C15_fallback_refuted.
+Print Assumptions C15_finer_interval.
+Print Assumptions C15_fallback_finding_class.
+Print Assumptions C15_spec_checker_sound.
